@@ -271,6 +271,22 @@ Section RootMove.
       destruct (memN g (globals_of w src)); [|discriminate].
       inversion Ho; subst o. cbn [move_obj]. rewrite q_rho_src. reflexivity.
   Qed.
+
+  Theorem move_to_root_all_import F name xo refs m' :
+    fallback_root_ok l F b = true ->
+    match xo with Some y => N.eqb y b = false | None => True end ->
+    forallb (ref_ok w p b (StFromPkg xo)) refs = true ->
+    change_occurrences V w src [] (client_of p b F name (StFromPkg xo) refs) = Done m' ->
+    imports_ok w' m' = true.
+  Proof.
+    intros Hfb Hxo Hrefs Hco. rewrite forallb_forall in Hrefs.
+    rewrite co_root_from_pkg in Hco; auto.
+    - inversion Hco; subst m'. unfold imports_ok. cbn [m_folder m_imports]. rewrite q_envA. reflexivity.
+    - intros r Hr. specialize (Hrefs r Hr). unfold ref_ok in Hrefs. cbn [style_base] in Hrefs.
+      apply orb_true_iff in Hrefs as [H|H].
+      + left. apply dotted_eqb_eq. exact H.
+      + right. apply existsb_exists in H as [g [_ Hg]]. exists g. apply dotted_eqb_eq. exact Hg.
+  Qed.
 End RootMove.
 
 Theorem move_to_root_domain V w p b m :
@@ -295,4 +311,23 @@ Proof.
     as [m' [H1 [H2 [H3 [H4 H5]]]]].
   exists m'. rewrite Em at 1. split; [exact H1|]. split; [exact H2|]. split; [exact H3|]. split; [exact H4|].
   intros r o Hr Ho. apply H5; [exact Hr|]. rewrite <- Em. exact Ho.
+Qed.
+
+Theorem move_to_root_all_import_domain V w p b m m' :
+  root_domain V w (RPy p b) m = true ->
+  move_module_text V w (RPy p b) [] m = Done m' ->
+  imports_ok (move_world (RPy p b) [] w) m' = true.
+Proof.
+  unfold root_domain. intros H Hco.
+  apply andb_true_iff in H as [H Hst]. apply andb_true_iff in H as [H Hfb].
+  apply andb_true_iff in H as [H Hne]. apply andb_true_iff in H as [Hv Hlegal]. apply negb_true_iff in Hne.
+  destruct (style_of p b m) as [[|x|xo|g k| |xr|g k]|] eqn:Est; try discriminate.
+  apply andb_true_iff in Hst as [Hst Himps]. apply andb_true_iff in Hst as [Hxo Hrefs].
+  apply (list_eqb_eq istmt_eqb istmt_eqb_eq) in Himps.
+  assert (Em : m = client_of p b (m_folder m) (m_name m) (StFromPkg xo) (m_refs m)).
+  { destruct m as [f n i r]. cbn in *. subst i. reflexivity. }
+  assert (Hxo' : match xo with Some y => N.eqb y b = false | None => True end).
+  { destruct xo; [apply negb_true_iff; exact Hxo|exact I]. }
+  unfold move_module_text in Hco. rewrite Hne in Hco. rewrite Em in Hco.
+  exact (move_to_root_all_import V w p b Hv Hlegal (m_folder m) (m_name m) xo (m_refs m) m' Hfb Hxo' Hrefs Hco).
 Qed.
